@@ -16,8 +16,8 @@ import vlib
 import progs
 import probes_gc
 
-THEOREM_MODULES = ["Yarel.Props.GcCollector", "Yarel.Props.C01"]
-REQUIRED_THEOREMS = ["collect_safe", "collect_complete", "collect_terminates", "label_covered", "schema_covers",
+THEOREM_MODULES = ["Yarel.Props.GcCollector", "Yarel.Props.C01", "Yarel.Props.CollectSites"]
+REQUIRED_THEOREMS = ["collections_start_only_in_allocate_raw", "every_collection_is_under_an_allocation", "collect_safe", "collect_complete", "collect_terminates", "label_covered", "schema_covers",
                      "schema_wellFormed", "c01_collect_safe"]
 USES_GEN = True
 LEVEL = "proof"
